@@ -136,8 +136,9 @@ theorem parseOptTpl_mono : Mono parseOptTpl := by
 /-- lock-step relation on decoder states: same cache, same records, reader extended by `s` -/
 def SRel (s : Bytes) (a b : St) : Prop := Ext s a.r b.r ∧ a.cache = b.cache ∧ a.recs = b.recs
 
-/-- *starved*: the flowset header says more than 4 octets remain, the (truncated) datagram has at most 4 -/
-def Starved (ctx : Ctx) (r : Rd) : Prop := r.rem.length ≤ 4 ∧ leftInt ctx r > 4
+/-- *starved*: the flowset header says at least `minLeft` octets remain (one more record), the (truncated)
+datagram has fewer -/
+def Starved (ctx : Ctx) (r : Rd) : Prop := r.rem.length < minLeft ctx ∧ leftInt ctx r ≥ (minLeft ctx : Int)
 
 theorem leftInt_ext {s : Bytes} {t f : Rd} (h : Ext s t f) (ctx : Ctx) : leftInt ctx f = leftInt ctx t := by
   simp only [leftInt, h.1]
@@ -239,9 +240,9 @@ theorem setLoop_sim (s : Bytes) (ctx : Ctx) : ∀ (fuelT fuelF : Nat) (stT stF :
           rw [← h.1]
           simp only [contCond, Bool.and_eq_true, decide_eq_true_eq] at hcT hcF
           unfold Starved
-          have h1 : leftInt ctx stT.r > 4 := by rw [← leftInt_ext hr]; exact hcF.1
+          have h1 : leftInt ctx stT.r ≥ (minLeft ctx : Int) := by rw [← leftInt_ext hr]; exact hcF.1
           refine ⟨?_, h1⟩
-          by_cases h2 : stT.r.rem.length > 4
+          by_cases h2 : stT.r.rem.length ≥ minLeft ctx
           · exact absurd ⟨h1, h2⟩ hcT
           · omega
         · rw [if_neg hcF]
